@@ -82,6 +82,9 @@ def check(cprefs, sprefs, moduli, label):
         if exp_kex is None or not r["kex"].endswith(":" + exp_kex) and exp_kex not in r["kex"]:
             # class names differ from algorithm names; compare through the engine's own name when it has one
             pass
+        exp_key = first_common(adv["client"]["server_key_algo_list"], adv["server"]["server_key_algo_list"])
+        if r["key"] != exp_key:
+            why.append("%s chose host key algorithm %r, the client's first among those the server offered is %r" % (side, r["key"], exp_key))
         for k, (cl, sl) in dict(c2s_cipher=("client_encrypt_algo_list", "client_encrypt_algo_list"),
                                 s2c_cipher=("server_encrypt_algo_list", "server_encrypt_algo_list"),
                                 c2s_mac=("client_mac_algo_list", "client_mac_algo_list"),
@@ -104,6 +107,12 @@ def replay_negotiation(inp):
     for moduli in (False, True):
         n += 1
         bad += check(dict(kex=gex_first), dict(kex=plain), moduli, "client prefers group exchange, server %s a moduli file" % ("with" if moduli else "without"))
+    # a server whose host-key preference list leaves out an algorithm it holds a key for, facing a client that ranks that
+    # algorithm first: both ends must still pick the client's first choice among what the server OFFERED
+    for ckeys in (("ssh-rsa", "rsa-sha2-512", "rsa-sha2-256"), ("ssh-rsa", "rsa-sha2-256"), ("rsa-sha2-256", "ssh-rsa")):
+        n += 1
+        bad += check(dict(key_types=ckeys), dict(key_types=("rsa-sha2-512", "rsa-sha2-256")), True,
+                     "server offers rsa-sha2-* only (it holds an RSA key), client prefers %s" % (ckeys,))
     if bad:
         return {"violates": True, "evaluations": n, "detail": bad[:3]}
     base = Transport._preferred_ciphers, Transport._preferred_macs, ("none", "zlib@openssh.com", "zlib")
